@@ -23,6 +23,6 @@ def run(ctx, rep):
         "panics and termination quantify over run-time values and are not decided by this family.")
     rep.trusted = ["rows of class `invariant` rest on stated value-level invariants (listed in evidence samples)",
                    "dependency crates (cabac, byteorder, crc32fast, zstd) are not searched for failure constructs"]
-    site.check_sites(F, rep, "X1", [PC + "decompress_deflate_stream"], 40)
+    site.check_sites(F, rep, "X1", [PC + "decompress_deflate_stream"], 20)
     guard.x2(ctx, rep)
     ub.p3(ctx, rep, rule="X3")
